@@ -42,8 +42,17 @@ class NonceMonitor(Monitor):
         if e is None:
             return
         key, typ, idents = e
+        for ident in idents:
+            if ident in data:
+                w.violation("application_bytes_in_clear_on_the_wire", {"ident": ident.hex(), "type": typ, "had_key": bool(key)},
+                            key="type=%d:%s" % (typ, "keyed" if key else "before-key"))
+                break
         if not key:
-            return                  # before key agreement: the client hello
+            # before key agreement the only thing an endpoint may put on the wire is its hello
+            if typ != R.T_CLIENT_HELLO or h["count"] != 1:
+                w.violation("datagram_other_than_hello_emitted_before_key_agreement", {"type": typ, "count": h["count"], "len": len(data)},
+                            key="type=%d" % typ)
+            return
         if typ == R.T_SERVER_HELLO:
             return                  # the one signed, unencrypted exception
         self.checked += 1
@@ -63,10 +72,6 @@ class NonceMonitor(Monitor):
                         key="type=%d:%s" % (typ, "clear" if crc is not None else "undecryptable"))
         elif len(data) != R.HDR + len(body) + R.TAG:
             w.violation("sealed_datagram_has_unauthenticated_trailing_bytes", {"len": len(data)}, key="")
-        for ident in idents:
-            if ident in data:
-                w.violation("application_bytes_in_clear_on_the_wire", {"ident": ident.hex(), "type": typ}, key="type=%d" % typ)
-                break
         # the whole 20-byte header is authenticated: altering any header byte must break the seal (sampled)
         if body is not None and self.checked % 97 == 0:
             for pos in range(R.HDR):
@@ -179,6 +184,13 @@ class C03(UdpCheck):
         if rng.random() < 0.4:
             cfg["phases"].append({"t0": 1.0, "t1": cfg["duration"], "dst": "S", "loss": rng.choice([0.5, 0.9, 0.99])})
         n = len(cfg["clients"])
+        if rng.random() < 0.4:
+            # the application calls send() right after connect(), while the handshake is still in flight
+            cfg["latency"] = max(cfg["latency"], rng.choice([0.02, 0.05]))
+            for op in [o for o in plan if o["op"] == "connect"]:
+                for j in range(rng.choice([1, 3])):
+                    plan.append({"op": "send", "c": op["c"], "t": round(op["t"] + 0.002 + j * 0.02, 4), "len": rng.choice([8, 60, 2000]),
+                                 "retry": rng.choice([0, 1, -1]), "cb": False, "api": "send"})
         for j in range(rng.choice([0, 1, 3])):
             plan.append({"op": "clockstep", "c": rng.randrange(n), "t": round(rng.random() * cfg["duration"], 3),
                          "d": rng.choice([0.001, 0.02, 0.05])})
